@@ -4,27 +4,23 @@
   What is proved here (for ALL inputs / histories, no bound):
   * `replay_store`, `replay_canonical`, `inst_node_replays_call` – an instruction captured by `BaseBuilder::_emit` (0..6 operands, any
     option word, extra register, inline comment) is replayed by `serialize_to` as exactly the call that was made; operands behind
-    `op_count` (which the assembler would ignore as well) are the only thing normalised away.
+    `op_count` (which `_emit` drops) are the only thing normalised away.
   * `serialize_all_on_success`, `serialize_prefix_on_error` – `serialize_to` against ANY destination emitter: without a rejection every
     call is issued in order; otherwise exactly the calls up to and including the first rejected one are issued, the error is that
     call's error and the destination is in the state it had at that call ("same errors" of the property).
-  * `init_inv`, `refines_partial` – the node list of the model (cursor *node*, recursive list surgery, cached `_next_section` links with a
-    dirty flag) refines the gap-buffer document of Spec/Builder.lean for every history of add_node / add_after / add_before /
-    remove_node / set_cursor / section-node registration, and the representation invariant (no node twice, cursor linked, link cache
-    coherent unless flagged dirty) holds in every reachable state ("editing the node list yields the code of the edited sequence").
+  * `init_inv`, `refines`, `edit_semantics`, `reachable_inv` – the node list of the model (cursor *node*, recursive list surgery, cached
+    `_next_section` links with a dirty flag, `update_section_links`) refines the gap-buffer document of Spec/Builder.lean for every
+    history of add_node / add_after / add_before / remove_node / remove_nodes / set_cursor / section; the representation invariant
+    (no node twice, cursor linked, link cache coherent unless flagged dirty) holds in every reachable state; hence for every sequence
+    of emitter calls and node-list edits `serialize` of the Builder model = the specification's linearisation of the edited document
+    ("editing the node list yields the code of the edited sequence").
 
-  Full-strength statement that is NOT proved yet (kept here as the target):
-
-      theorem refines : ∀ (acts : List Act) (m : MList), Inv m →
-          Inv (acts.foldl MList.apply m) ∧ (acts.foldl MList.apply m).abs = acts.foldl Spec.Doc.apply m.abs
-
-  `refines_partial` proves it under the extra hypothesis that no action is `removeRange a b` with `a ≠ b` (remove_nodes over a real range)
-  or `section n` (BaseBuilder::section: cursor to the end of the section's region through the cached links).  For these two the
-  agreement model = specification = real Builder is checked by the correspondence and by the monitor on every run, not proved.
-  Also not proved: `serialize_groups` (per-section projection under section re-entry); the byte equality itself is differential.
+  Not proved (checked by correspondence / differential on every run): `serialize_groups` (a section receives exactly its projection of
+  the call sequence under section re-entry – `Spec.project` is defined for it), and the byte equality Builder vs Assembler itself,
+  which rests on the assembler (C01–C03).
 -/
 import AsmjitVerif.Lemmas.C08Ops
-import AsmjitVerif.Lemmas.C08Refine2
+import AsmjitVerif.Lemmas.C08Sim
 
 namespace AsmjitVerif.Props.C08
 open AsmjitVerif.Builder
@@ -96,62 +92,62 @@ theorem init_inv (r : Nat) : Inv (Builder.St.init r).l := by
 theorem init_abs (r : Nat) : (Builder.St.init r).l.abs = (Spec.St.init r).d := by
   simp [Builder.St.init, Spec.St.init, MList.abs, absCursor]
 
-/-- actions covered by the proof so far -/
-def Covered : Act → Prop
-  | .section _ => False
-  | _ => True
+/-- Refinement + invariant for EVERY history of list actions (add_node, add_after, add_before, remove_node, remove_nodes, set_cursor,
+    section-node creation, section), from any state satisfying the invariant (in particular from the attached Builder, `init_inv`): the
+    model's list / cursor node / link cache abstracts to exactly the document the gap-buffer specification computes. -/
+theorem refines (acts : List Act) (m : MList) (h : Inv m) :
+    Inv (acts.foldl MList.apply m) ∧ (acts.foldl MList.apply m).abs = acts.foldl Doc.apply m.abs :=
+  refine_acts acts m h
 
-theorem refine_step (m : MList) (a : Act) (hc : Covered a) (h : Inv m) :
-    Inv (m.apply a) ∧ (m.apply a).abs = m.abs.apply a := by
-  cases a with
-  | add n => exact refine_add m n h
-  | addAfter n r => exact refine_addAfter m n r h
-  | addBefore n r => exact refine_addBefore m n r h
-  | remove n => exact refine_remove m n h
-  | removeRange a b => exact refine_removeRange m a b h
-  | setCursor c => exact refine_setCursor m c h
-  | regSection n => exact refine_regSection m n h
-  | «section» n => exact absurd hc (by simp [Covered])
+/-- the attached Builder and the initial document are related -/
+theorem init_sim (r : Nat) : Sim (Builder.St.init r) (Spec.St.init r) :=
+  ⟨rfl, init_abs r, init_inv r⟩
 
-/-- Refinement + invariant for every history of covered list actions, from any state satisfying the invariant (in particular from the
-    attached Builder, `init_inv`): the model's list/cursor/cache state abstracts to exactly the document the specification computes. -/
-theorem refines_partial : ∀ (acts : List Act) (m : MList), (∀ a ∈ acts, Covered a) → Inv m →
-    Inv (acts.foldl MList.apply m) ∧ (acts.foldl MList.apply m).abs = acts.foldl Doc.apply m.abs := by
-  intro acts
-  induction acts with
-  | nil => intro m _ h; exact ⟨h, rfl⟩
-  | cons a rest ih =>
-    intro m hc h
-    have hstep := refine_step m a (hc a (by simp)) h
-    have := ih (m.apply a) (fun x hx => hc x (by simp [hx])) hstep.1
-    simpa [List.foldl_cons, hstep.2] using this
+/-- every reachable Builder state (any sequence of emitter calls and edits after attach) satisfies the representation invariant:
+    no node linked twice, the cursor is a linked node, and unless `_dirty_section_links` is set every linked SectionNode's cached
+    `_next_section` is the next linked SectionNode -/
+theorem reachable_inv (ops : List Op) (r : Nat) : Inv (run (Builder.St.init r) ops).l :=
+  (sim_run ops _ _ (init_sim r)).inv
 
-/-- consequence: what `serialize_to` walks (the model's list) is the specification's item sequence, after any covered history -/
-theorem serialized_list_is_document (acts : List Act) (r : Nat) (hc : ∀ a ∈ acts, Covered a) :
-    (acts.foldl MList.apply (Builder.St.init r).l).list = (acts.foldl Doc.apply (Spec.St.init r).d).items := by
-  have := (refines_partial acts (Builder.St.init r).l hc (init_inv r)).2
-  rw [init_abs] at this
-  exact congrArg Doc.items this
+/-- "Editing the node list yields the code of the edited sequence": for every sequence of emitter calls, cursor moves, removals,
+    range removals, re-insertions and section switches, what `serialize_to` issues (model) is the linearisation of the specification's
+    document, call for call (payloads included: both sides read the same node store). -/
+theorem edit_semantics (ops : List Op) (r : Nat) :
+    serialize (run (Builder.St.init r) ops) = Spec.linearize (Spec.run (Spec.St.init r) ops) := by
+  have h := sim_run ops _ _ (init_sim r)
+  have hl : (run (Builder.St.init r) ops).l.list = (Spec.run (Spec.St.init r) ops).d.items := congrArg Doc.items h.doc
+  simp [serialize, Spec.linearize, hl, h.front]
+
+/-- … and the cursor designates the item in front of the specification's gap -/
+theorem edit_cursor (ops : List Op) (r : Nat) :
+    absCursor (run (Builder.St.init r) ops).l.list (run (Builder.St.init r) ops).l.cursor = (Spec.run (Spec.St.init r) ops).d.gap :=
+  congrArg Doc.gap (sim_run ops _ _ (init_sim r)).doc
 
 -- non-vacuity: a history with insertion at the cursor, a move (remove + add_before), a cursor change and a removal of the cursor node
 def sampleActs : List Act :=
   [.add 1, .add 2, .add 3, .remove 2, .addBefore 2 1, .setCursor (some 2), .add 4, .remove 4, .setCursor none, .add 5]
 
-example : ∀ a ∈ sampleActs, Covered a := by
-  intro a ha
-  simp [sampleActs] at ha
-  rcases ha with rfl | rfl | rfl | rfl | rfl | rfl | rfl | rfl | rfl | rfl <;> simp [Covered]
 example : (sampleActs.foldl MList.apply (Builder.St.init 8).l).list = [5, 0, 2, 1, 3] := by decide
 example : (sampleActs.foldl MList.apply (Builder.St.init 8).l).cursor = some 5 := by decide
 example : (sampleActs.foldl Doc.apply (Spec.St.init 8).d).items = [5, 0, 2, 1, 3] := by decide
 example : (sampleActs.foldl Doc.apply (Spec.St.init 8).d).gap = 1 := by decide
 
--- the two uncovered actions agree with the specification on a concrete history (section re-entry through the cached links, range removal)
+-- section re-entry through the cached links and a range removal, concretely
 def sampleActs2 : List Act :=
   [.add 1, .regSection 2, .section 2, .add 3, .section 0, .add 4, .section 2, .add 5, .removeRange 1 2, .section 2]
 
 example : (sampleActs2.foldl MList.apply (Builder.St.init 8).l).abs.items = (sampleActs2.foldl Doc.apply (Spec.St.init 8).d).items := by decide
 example : (sampleActs2.foldl MList.apply (Builder.St.init 8).l).abs.gap = (sampleActs2.foldl Doc.apply (Spec.St.init 8).d).gap := by decide
 example : (sampleActs2.foldl MList.apply (Builder.St.init 8).l).list = [0, 3, 5, 2] := by decide
+
+-- an operation-level history: two sections, re-entry, an instruction with options/extra register/comment, a move, a range removal
+def sampleOps : List Op :=
+  [.newlabel, .newsection, .opts 0x4001, .extra "k1", .icomment "c1", .inst 789 ["z1", "z2", "z3", "-", "-", "-"], .bind 0,
+   .section 1, .embed "0102", .section 0, .align 0 16, .remove 2, .addbefore 2 1, .cursor (some 3), .comment "x",
+   .removerange 6 4, .section 1, .elabel 0 8]
+
+example : serialize (run (Builder.St.init 8) sampleOps) =
+    [.section 0, .inst 789 0x4000 "k1" "c1" ["z1", "z2", "z3", "-", "-", "-"], .bind 0, .align 0 16, .section 1, .elabel 0 8] := by
+  decide
 
 end AsmjitVerif.Props.C08
